@@ -96,6 +96,9 @@ def repo_state():
 
 
 def load_known(pid):
+  """Open and fixed entries of known_findings.json.  An open entry identifies the finding by its failure signature AND,
+  when it has an "instances" file (one input identifier per line, committed under /verif/findings/), by the exact set of
+  inputs recorded as failing: the same signature on any other input is a new violation."""
   path = os.path.join(VERIF, "known_findings.json")
   if not os.path.exists(path):
     return {}, {}
@@ -104,8 +107,29 @@ def load_known(pid):
   for e in data.get("findings", []):
     if e.get("property") != pid:
       continue
-    (open_ if e.get("status") == "open" else fixed)[e["key"]] = e
+    if e.get("status") == "open":
+      e = dict(e)
+      ipath = os.path.join(VERIF, e["instances"]) if e.get("instances") else None
+      e["_instances"] = set(l.rstrip("\n") for l in open(ipath)) if ipath and os.path.exists(ipath) else None
+      open_[e["key"]] = e
+    else:
+      fixed[e["key"]] = e
   return open_, fixed
+
+
+def case_id(case):
+  """Stable identifier of a case: its parameters without the run-dependent ones (seed, tier)."""
+  if isinstance(case, dict):
+    return json.dumps({k: v for k, v in case.items() if not k.startswith("_") and k != "tier"}, sort_keys=True, default=repr)
+  return json.dumps(case, sort_keys=True, default=repr)
+
+
+def instances_of(case, v):
+  """The inputs a violation record stands for: the property module may name them (one record for many failing inputs of
+  a case), otherwise the case itself."""
+  if v.get("insts"):
+    return [str(x) for x in v["insts"]]
+  return [str(v["inst"])] if v.get("inst") else [case_id(case)]
 
 
 def validate_evidence(path):
@@ -268,22 +292,46 @@ def run_check(prop, tier, seed):
   for i, v in violations:
     by_key.setdefault(v["key"], []).append((i, v))
   known_seen, new_keys = [], []
+  outside = {}     # key -> [(case index, violation, instance)] failing inputs of a known signature that are NOT recorded
+  dump = {}
   for key in sorted(by_key, key=lambda k: by_key[k][0][0]):
+    if os.environ.get("VERIF_DUMP_INSTANCES"):
+      dump[key] = sorted({inst for i, v in by_key[key] for inst in instances_of(cases[i], v)})
     if key in known_open:
-      known_seen.append(key)
+      allowed = known_open[key]["_instances"]
+      if allowed is not None:
+        out = [(i, v, inst) for i, v in by_key[key] for inst in instances_of(cases[i], v) if inst not in allowed]
+        if out:
+          outside[key] = out
+          new_keys.append(key)
+        if len(out) < sum(len(instances_of(cases[i], v)) for i, v in by_key[key]):
+          known_seen.append(key)
+      else:
+        known_seen.append(key)
     else:
       new_keys.append(key)
+  if os.environ.get("VERIF_DUMP_INSTANCES"):
+    with open(os.environ["VERIF_DUMP_INSTANCES"], "w") as f:
+      json.dump(dump, f)
   for key in known_seen:
     print("KNOWN-FINDING: property=%s %s [%s; %d case(s)]" % (
         pid, known_open[key]["what"], key, len(by_key[key])))
   replay_paths = []
   for key in new_keys[:80]:
-    i, v = by_key[key][0]
+    if key in outside:
+      i, v, inst = outside[key][0]
+      v = dict(v, what="%s  [signature of a recorded finding, but this input is not among the inputs recorded for it: %s]" % (
+          v.get("what"), inst[:300]))
+    else:
+      i, v = by_key[key][0]
     path = write_replay(pid, cases[i], v)
     replay_paths.append(path)
     print("VIOLATION property=%s replay=%s" % (pid, path))
-    print("  signature: %s  (%d case(s))%s" % (
-        key, len(by_key[key]), "  [listed as fixed: it has returned]" if key in known_fixed else ""))
+    if key in outside:
+      print("  signature: %s  (%d input(s) outside the recorded finding's input set)" % (key, len(outside[key])))
+    else:
+      print("  signature: %s  (%d case(s))%s" % (
+          key, len(by_key[key]), "  [listed as fixed: it has returned]" if key in known_fixed else ""))
     print("  what: %s" % str(v.get("what"))[:400])
   if len(new_keys) > 80:
     print("  ... and %d more distinct signatures" % (len(new_keys) - 80))
